@@ -18,12 +18,12 @@ from fsmc.explorer import ListSystem
 PID = "C06"
 RULE = ("states = (tissue, chain of similarity transforms up to the depth bound); transitions = one group element; "
         "non-trivial = pose differs from the original; classes = (tissue, chain signature)")
-BOUND = {"quick": "3 tissues (equilibrium, deformed, seeded) x both fits; 13 translations, 10 rotations (incl. tangent-aligned), 3 reflections, 6 scalings; chains to depth 2; dynamic: 6 time factors x 6 length factors; 7 translations applied IN PLACE to solved objects (as cm=True does) x 3 tissues x both fits",
+BOUND = {"quick": "3 tissues (equilibrium, deformed, seeded) x both fits; 13 translations, 10 rotations (incl. tangent-aligned), 3 reflections, 6 scalings; chains to depth 2; dynamic: 6 time factors x 6 length factors on a two-frame series and on a three-frame series whose middle stamp is exactly 0; 7 translations applied IN PLACE to solved objects (as cm=True does) x 3 tissues x both fits",
          "thorough": "6 tissues, 24 rotations, chains to depth 3; 13 in-place translations x 6 tissues x both fits"}
 ASSUMPTIONS = ["tensions / pressures are only compared where the non-negative optimum is unique in both poses",
                "coefficient tolerance: 1e-7 (taubinSVD); dlite: 1e-7 x (1 + 30 x translation in tissue sizes) on exact arcs, 1e-3 on deformed interfaces (leastsq termination); dlite beyond 1e2 tissue sizes is finding F8; tensions: 1e-9 x conditioning + 10 x coefficient deviation x conditioning",
                "dynamic tolerance: 3 x (5e-4 sqrt(rows)) / sigma_min of the augmented system (3-decimal rounding of the velocity term)"]
-REQUIRED_TAGS = {"all": ["translate", "rotate", "reflect", "scale", "compared", "pressures_compared", "dynamic_time", "dynamic_length", "noisy", "far_translation", "inplace_translation"]}
+REQUIRED_TAGS = {"all": ["translate", "rotate", "reflect", "scale", "compared", "pressures_compared", "dynamic_time", "dynamic_length", "noisy", "far_translation", "inplace_translation", "stamps_through_zero"]}
 
 FITS = ["dlite", "taubinSVD"]
 TRS = [(1, 0), (0, 1), (-3, 2), (0.01, -0.02), (1e2, 0), (-39.8, 18.8), (1e3, -1e3), (10, -10), (0, -1e2), (70, 70), (1e4, 0), (0, 1e4), (-7e3, 7e3)]
@@ -439,7 +439,9 @@ class Units:
         self.factors = [1.0, 1e-3, 1e-2, 0.3, 7.0, 1e2, 1e3]
 
     def initial(self):
-        return [{"t": ti, "tf": 0, "lf": 0} for ti in range(len(self.tissues))]
+        # st = 0: two frames stamped (2, 2.5) x factor, inferred at the first; st = 1: three frames stamped (-2, 0, 2) x factor (time
+        # measured from an event: the stamp 0 falls on the middle frame in every unit), inferred at the middle one
+        return [{"t": ti, "tf": 0, "lf": 0, "st": st} for ti in range(len(self.tissues)) for st in (0, 1)]
 
     def actions(self, d):
         acts = []
@@ -468,16 +470,25 @@ class Units:
         # the same physical motion in every unit system: deform and move in the original units, then change the unit of length
         p0 = lambda j, i: scale(*n0(j, i))
         p1 = lambda j, i: scale(*mv(*n0(j, i)))
-        s, infos, ex = SC.build_series([{"at": at, "k": 3, "cmap": cm, "post": p0, "time": 2.0 * tf},
-                                        {"at": at, "k": 3, "cmap": cm, "post": p1, "time": 2.5 * tf}])
-        tags = []
+        which = 0
+        if d.get("st"):
+            mv2 = SC.noise_post(0.015, 2)
+            p2 = lambda j, i: scale(*mv2(*mv(*n0(j, i))))
+            s, infos, ex = SC.build_series([{"at": at, "k": 3, "cmap": cm, "post": p0, "time": -2.0 * tf},
+                                            {"at": at, "k": 3, "cmap": cm, "post": p1, "time": 0.0},
+                                            {"at": at, "k": 3, "cmap": cm, "post": p2, "time": 2.0 * tf}])
+            which = 1
+        else:
+            s, infos, ex = SC.build_series([{"at": at, "k": 3, "cmap": cm, "post": p0, "time": 2.0 * tf},
+                                            {"at": at, "k": 3, "cmap": cm, "post": p1, "time": 2.5 * tf}])
+        tags = ["stamps_through_zero"] if d.get("st") else []
         if d["tf"]:
             tags.append("dynamic_time")
         if d["lf"]:
             tags.append("dynamic_length")
         if ex is not None:
             return {"viol": [{"what": "series construction raised", "detail": fsutil.exc_str(ex)}], "tags": tags, "cls": "exc"}
-        r = SC.solve_frame(s, 0, at, infos[0], fit="taubinSVD", allow_negatives=False, solve_kwargs={"b_matrix": "velocity", "adimensional_velocity": True})
+        r = SC.solve_frame(s, which, at, infos[which], fit="taubinSVD", allow_negatives=False, solve_kwargs={"b_matrix": "velocity", "adimensional_velocity": True})
         if r.exc is not None:
             return {"viol": [{"what": "dynamic inference raised", "detail": fsutil.exc_str(r.exc)}], "tags": tags, "cls": "exc"}
         with fsutil.ref_math():
@@ -488,7 +499,7 @@ class Units:
             bnd = 3 * (5e-4 * math.sqrt(A.shape[0])) / max(smin, 1e-12)
         obs = {"tension": {str(ii): float(x) for ii, x in zip(r.cols, r.forces)}, "full": bool(full), "bound": bnd,
                "active": sum(1 for x in r.forces if x <= 1e-9)}
-        return {"viol": [], "tags": tags, "cls": "%d/%d/%d" % (d["t"], d["tf"], d["lf"]), "obs": obs, "nontrivial": bool(d["tf"] or d["lf"])}
+        return {"viol": [], "tags": tags, "cls": "%d/%d/%d/%d" % (d["t"], d["tf"], d["lf"], d.get("st", 0)), "obs": obs, "nontrivial": bool(d["tf"] or d["lf"])}
 
     def check_edge(self, d, a, d2, r, r2):
         o1, o2 = r.get("obs"), r2.get("obs")
